@@ -25,7 +25,7 @@ Unmodified(r) == LET A == DecO(r.pre)
                      B == DecO(r.post)
                  IN /\ r.exc = ""
                     /\ FullEq(A, B) /\ A.maxT = B.maxT /\ A.maxL = B.maxL
-                    /\ r.scale_pre = r.scale_post /\ r.pre.extra = r.post.extra
+                    /\ r.scale_pre = r.scale_post /\ r.pre.extra = r.post.extra /\ r.pre.nkeys = r.post.nkeys
 \* ---- C14 --------------------------------------------------------------------------
 \* what each format carries: csv = nodes, edges, time, position, track id; geff adds lineage,
 \* the loaded features (area, iou) and the array; the internal format adds scale and registry
@@ -38,7 +38,8 @@ RoundTrip(r) ==
        /\ (r.fmt \in {"geff", "internal"} =>
              /\ A.lid = B.lid /\ A.seg = B.seg /\ r.pre.extra = r.rt.extra
              /\ (HasSeg => A.area = B.area)
-             /\ ("iou" \in A.reg => \A e \in A.E : RatEq(A.iou[e], B.iou[e])))
+             /\ ("iou" \in A.reg => \A e \in A.E : RatEq(A.iou[e], B.iou[e]))
+             /\ ("cust" \in A.reg => A.cust = B.cust))
        /\ (r.fmt = "internal" => /\ r.scale_pre = r.scale_rt /\ A.reg = B.reg /\ A.cust = B.cust)
 \* known finding (known_findings.json): the GEFF importer's sanity check looks the label up AT the node's
 \* centroid, which lies outside a mask that is not convex
@@ -63,6 +64,10 @@ SubsetOK(r) ==
        /\ ((HasSeg /\ r.fmt = "geff") =>
              /\ r.dangling = 0
              /\ \A q \in Pix : r.out_seg[q] = (IF O.seg[q] \in keep THEN O.seg[q] ELSE 0))
+       \* the tif written next to a CSV carries the kept nodes' masks, labelled by track id
+       /\ ((HasSeg /\ r.fmt = "csv" /\ keep # {}) =>
+             /\ r.dangling = 0
+             /\ \A q \in Pix : r.out_seg[q] = (IF O.seg[q] \in keep THEN O.tid[O.seg[q]] ELSE 0))
 
 Report ==
     /\ Bump(1)
